@@ -44,7 +44,7 @@ CLAIMS = {
         ref="DESIGN.md A4.1, B-C09"),
     "C14": dict(
         text="Exhaustive within length: for EVERY buffer of N octets (all 256 values per octet, N up to the stated bound) and every start offset including at/after the end, try_from_compressed, skip_compressed, try_from_uncompressed(_all) and validate_uncompressed(_all) agree with an independent RFC 1035 decoder on acceptance, name octets, label table (exercising the unsafe DST layout, with CBMC's memory-safety checks on) and first-chunk length.",
-        note="quick: compressed N=3, uncompressed N in {2,5}, validate/skip every length 0..=8, plus the 63-octet-label / 255-octet-name boundaries via a 270-octet buffer whose fourth length octet is symbolic; thorough adds compressed N=4,5, uncompressed N=8, validate/skip 0..=14. Compressed parsing of names longer than 5 octets is covered only through skip_compressed and the uncompressed parser (parse_compressed_name on the long buffer ran out of memory at 29 GB). Stub S7 (ArrayVec::try_extend_from_slice).",
+        note="quick: compressed N=3, uncompressed N in {2,5}, validate/skip every length 0..=8, plus the 63-octet-label / 255-octet-name boundaries via a 270-octet buffer whose fourth length octet is symbolic; thorough adds compressed N=4, uncompressed N=8, validate/skip 0..=14. Compressed parsing of names longer than 4 octets is covered only through skip_compressed and the uncompressed parser (parse_compressed_name on the long buffer ran out of memory at 29 GB). Stub S7 (ArrayVec::try_extend_from_slice).",
         ref="DESIGN.md A4, B-C14"),
     "C17": dict(
         text="Exhaustive by solver query: for ALL 65536 values of each 16-bit code (one symbolic u16 per query) Display->FromStr round-trips for Type, Class, Qtype, Qclass; the RFC 3597 TYPEn/CLASSn decimal form assembled in the harness parses to n for every n; every mnemonic of the reference tables parses to its code under every per-letter case mask; Opcode/Rcode TryFrom<u8> accept exactly values < 16 (all 256 values) and Rcode TryFrom<ExtendedRcode> exactly values < 16 with the value preserved.",
@@ -70,6 +70,18 @@ CLAIMS = {
         text="Bounded: (a) non-allocating operations on EVERY message of each length 12..=28 (thorough ..=48), all octets symbolic: skip_question, skip_rr, peek_rr (+ rr_type/class/ttl/rdlength/message_to_rr, drop, skip) and their sequences from any reachable cursor: Ok iff an independent reference frames the item, cursor advanced exactly on Ok and unchanged on Err, TTL = RFC 2181 clamp; header accessors on every octet string of length 0..=13; (b) allocating operations (read_question, read_rr, peek+owner+parse) on concrete skeleton messages with symbolic CLASS/TTL/RDLENGTH/RDATA octets, truncated at every length, for opaque types, NS, MX, A (IN, CH, class 2), SOA (thorough): all fields equal the reference incl. decompressed RDATA, failed reads (incl. RDATA invalid for its type, undecodable owner) leave the cursor unchanged.",
         note="Name STRUCTURE inside the allocating operations is concrete per skeleton (symbolic name structure ran 16+ min / 17 GB without a verdict; decided by C14 on small buffers instead). TYPE is concrete per harness. MINFO/SRV/HINFO/TXT/WKS/AAAA/OPT/TSIG RDATA are covered through Rdata::read in C18, not through the reader. Stub S7.",
         ref="DESIGN.md A4.2, B-C15"),
+    "C16": dict(
+        text="Bounded: (a) Display->FromStr round trip to the identical wire form for every name of shapes root, (1), (2), (1,1) in one query and (1,2), (2,1), (2,2) in two halves meeting at a reference rendering (thorough), all 256 octet values per position; (b) FromStr accepts exactly the strings a reference text parser accepts, with equal wire forms, for EVERY well-formed UTF-8 string of exactly 3 octets (1..=6 thorough); (c) ==, Hash input (recording Hasher), cmp vs an RFC 4034 6.1 reference, antisymmetry, transitivity, eq_or_subdomain_of, superdomain, labels(), Index, wire_repr_from/to, make_ascii_lowercase, LowercaseName against reference computations for all names of wire length <= 5 (<= 7 thorough: every label structure up to 3 labels); (d) NameBuilder one-step induction from an ARBITRARY builder state satisfying the representation invariant (wire length 1..=255, 1..=128 labels, current label 0..=63): try_push / try_push_slice / next_label / finish / finish_with_suffix accept exactly within the 63/255/127 limits, errors leave the state unchanged, the invariant is preserved.",
+        note="Long TEXT through FromStr (63/64-octet labels, 255/256-octet names) is not decided end to end (concrete 64- and 255-octet texts exceeded 50 min): those boundaries rest on FromStr == reference for all strings <= 6 octets plus the builder induction, which would miss a position-dependent bug in from_str's loop beyond 6 octets. Eq/Ord/Hash only for wire length <= 7. Stub S7 only in the try_push_slice / finish_with_suffix harnesses.",
+        ref="DESIGN.md A4.2, B-C16"),
+    "C21": dict(
+        text="Bounded, compositional via a mock zone (M1): the real validate / scan_node over zones whose facts (soa(), ns(), nodes, lookup_addrs answers) are small and mostly concrete per scenario with symbolic class (IN/CH/HS), glue policy and lookup answers: the reported issue set equals a reference checker's (no spurious, duplicate or missing issue; is_error false exactly for MissingMxAddress and NsAtWildcard) for: SOA none/1/2 x NS none/one; one and two apex NS with every lookup_addrs answer kind; CNAME x1, x2, CNAME+other data; delegation with own-zone and sibling-zone name servers under narrow and wide glue policy; NS at wildcard; MX with/without address; the same issue reported once.",
+        note="Stub S1 (HashSet model), mock zone M1 (may be inconsistent as a zone: superset of real stores). Multi-node zones and several named issues at once through the real validate are out of reach (46 min symex then 14 GB; 2 h / 1488 unwindings): delegation/MX/wildcard scenarios call scan_node directly on one node, validate's own node loop is covered by the CNAME scenarios. Not attempted: malformed RDATA (Err(InvalidRdata)), occluded NS records, mixed-case NS targets.",
+        ref="DESIGN.md A4.2, B-C21"),
+    "C24": dict(
+        text="Bounded, helper level only: Reader::try_fill from every reader state over a 4-octet buffer (start <= end symbolic, contents symbolic) for targets 1, 4, 6: indices never leave the buffer, octets preserved in order, Ok(true) iff the target is available; parse_escape on all 2^24 three-octet continuations and on short inputs; generic RDATA hex digits (4 symbolic octets); parse_type rejects NULL in all 16 case mixes; no panic in any of these.",
+        note="The whole-file part of the property (totality for arbitrary bytes, nothing after the first error, validity of every yielded record) could NOT be encoded within reach: CBMC does not constant-fold io::Result<Option<u8>> returns, so every reader call result is symbolic and the whole parser is explored on every path; a 1-octet input ran out of memory at 6-10 GB, a concrete 12-octet record line did not finish. C23 is not claimed for the same reason. Stub S6 (alloc::fmt::format).",
+        ref="DESIGN.md A4.2, B-C24"),
 }
 
 GENERIC = dict(
@@ -78,6 +90,7 @@ GENERIC = dict(
     ref="DESIGN.md section 3")
 
 NA = {
+    "C23": "whole-line / whole-file zone-file parsing is out of reach for bounded model checking here (measured): CBMC does not constant-fold the parser's io::Result<Option<u8>> reader results, so even a fully concrete record line makes it explore the entire parser on every path (1-octet input: out of memory at 6-10 GB; concrete 12-octet line '. 5 IN NS .': not finished after 670 unwindings; TTL/class order harnesses: out of memory at 9-10 GB). Only helper functions (escape sequences, generic RDATA hex digits) are decided, as part of C24's evidence.",
     "C25": "$INCLUDE semantics are decided by zone_file::fs::Parser opening real files (File::open, path joins): file-system FFI is an unsupported construct for Kani/CBMC and fs/mod.rs has no in-memory seam; solver-based checking cannot reach it.",
     "C28": "the quantifier is OS-thread schedules over a Mutex-guarded bucket; Kani/CBMC verify sequential Rust only and no solver engine here has a concurrency model for std::thread; the sequential bucket step is C26.",
     "C29": "thread-pool correctness is a property of Condvar/Mutex/thread::spawn interleavings with timeouts; no solver-based engine in this image executes real multi-threaded Rust symbolically.",
